@@ -304,8 +304,11 @@ CLAIMS = {
          "on all 8-bit operand pairs (boundary+random pairs for wider types) against the source meaning, with Go's constant-expression rules.",
     design_ref="§5 C10",
     note="Go constant expressions over float literals (Model/GoConst.lean): float_const_faithful_if_exact_operands (abstract rounding), concrete "
-         "counter-examples by decide, Gen/FloatPrint table theorem; the real printed Go of 1400+ literal-operand programs is evaluated with Go's constant "
-         "rules against the source meaning. Floats are otherwise validated, not proved: literal -> Core bits against an independent correctly-rounded decimal->binary conversion and Rust's parse, "
+         "counter-examples by decide, Gen/FloatPrint table theorem; the real printed Go of 2100+ literal-operand programs is evaluated with Go's constant "
+         "rules against the source meaning. The KIND of a printed float literal is proved: float_const_integral_suffix_needed (for ALL whole operands a, b>0 the "
+         "unsuffixed spelling `a / b` is Go's truncated integer quotient, the `.0`-suffixed one is exactly a/b), float_print_always_float_kind / float_print_whole_value "
+         "(over the regenerated suffix: whatever go_float_literal prints is a floating-point token of the right value); Go's reading of a numeric token "
+         "(Model/GoConst.litValL, decimal float grammar with exponents) is validated three-way against python and Rust's str::parse. Floats are otherwise validated, not proved: literal -> Core bits against an independent correctly-rounded decimal->binary conversion and Rust's parse, "
          "printed Go literal read back, operator symbol and operand Go types; float32 'rounds every operation to single precision' rests on Go. "
          "Trusted: Lean kernel; the reading of the Go specification in goBinInt/goConstBin/goIntToken; tools/extract.py regexes; harness program templates. "
          "Known findings: operators on all-literal operands become Go constant expressions (integers: overflow / zero divisor rejected by the Go compiler; "
